@@ -202,6 +202,13 @@ def run(spec, ctx):
                             closer.close()
         if not failed and not use_ctx:
             ctx.remember("entry-points", lambda text=text, doc=doc: (repr([canon(v) for v in jsonpath.findall(text, doc)]), repr(recs(jsonpath.compile(text).finditer(doc)))), limit=150)
+        if not failed and r.random() < 0.3:
+            # one compiled operand, one document object, one context object: incomplete passes (match(), abandoned
+            # iterators), in-place updates, then every listing entry point against the model for the document as it is
+            from rt.jp_oracle import check_after_incomplete_passes
+
+            q0 = r.choice(asts)
+            check_after_incomplete_passes(ctx, q0, Renderer(r, plain=True).top(q0), doc, fctx, "in-place")
         if not failed and not use_ctx and r.random() < 0.5:
             # lazy entry points of ONE compiled object left half-consumed while another evaluation runs:
             # finditer/query must still list what findall lists
@@ -258,6 +265,12 @@ def finalize(m, tier):
 
 
 def replay(case, ctx, tag="replay"):
+    if case.get("in_place"):
+        from rt.jp_oracle import check_after_incomplete_passes
+
+        for _ in range(10):
+            check_after_incomplete_passes(ctx, case["ast"], case["text"], case["doc"], case.get("extra"), case.get("class", "replay"))
+        return
     import jsonpath
 
     text, doc, comp = case["text"], case["doc"], case["comp"]
